@@ -84,6 +84,12 @@ func (g *Gen) Emit(kind string, fields ...string) {
 // Pick returns one of the strings.
 func (g *Gen) Pick(xs ...string) string { return xs[g.Intn(len(xs))] }
 
+// Pick2 returns one of the ints.
+func (g *Gen) Pick2(xs ...int) int { return xs[g.Intn(len(xs))] }
+
+// Pick2s is Pick (kept for call sites that weight by repetition).
+func (g *Gen) Pick2s(xs ...string) string { return xs[g.Intn(len(xs))] }
+
 // Chance is true with probability p.
 func (g *Gen) Chance(p float64) bool { return g.Float64() < p }
 
